@@ -552,6 +552,7 @@ int main(void)
 		WITNESS(L == 0 && wlen == 4, "zero-length frame announced -> EPROTO");
 	    } else if (e == EAGAIN) {
 		CHECK(!TS->conn.bad, "C06: EAGAIN does not poison the connection");
+		CHECK(g_recv_calls > 0 && ((g_recv_result == -1 && g_recv_errno == EAGAIN) || g_recv_result > 0), "C04,C01: receive reports EAGAIN only because the lower layer had no (or not enough) input - a pending outbound frame the lower layer refuses (back-pressure) never stops reception");
 		CHECK(!(g_recv_calls > 0 && g_recv_result == 0), "C06: end of stream reported by the lower layer - at any offset of a frame - is returned as 0 by the discovering receive, not hidden behind EAGAIN");
 		CHECK(!(g_recv_calls > 0 && g_recv_result == -1 && g_recv_errno != EAGAIN), "C06: a hard error reported by the lower layer is returned by the discovering receive, not hidden behind EAGAIN");
 		CHECK(rb->wire_len == wlen, "C01: after EAGAIN the partial frame holds exactly the bytes received so far");
